@@ -115,6 +115,10 @@ def run_tlc(
         if not deadlock:
             cmd += ['-deadlock']
         if simulate is not None:
+            if 'file=' not in simulate:
+                # `num=` is only honoured together with `file=`
+                os.makedirs(os.path.join(work, 'sim'), exist_ok=True)
+                simulate = f'file={work}/sim/t,' + simulate
             cmd += ['-simulate', simulate]
         if depth is not None:
             cmd += ['-depth', str(depth)]
